@@ -35,6 +35,7 @@ class Contract:
         self.loops = kw.pop("loops", {})
         self.assumed = kw.pop("assumed", False)      # trusted: never verified, always listed
         self.inline = kw.pop("inline", False)
+        self.wip = kw.pop("wip", False)              # work in progress: not verified, not claimed, listed as such
         self.props = kw.pop("props", [])             # property ids this unit serves
         self.prop_clauses = set(kw.pop("prop_clauses", []))   # clause ids written from the property statement
         self.ghost = kw.pop("ghost", {})             # extra symbolic ghost values name -> Sort
